@@ -43,7 +43,7 @@ class Chunking(FragmentTask):
         v, n = out.value, inp["n"]
         chunk, fnames = v.get("chunk_size"), v.get("fnames")
         ok = chunk is not None and fnames is not None
-        ctx.oblige("post.fragment-defines-chunk_size-and-fnames", ok, "P")
+        ctx.structure("post.fragment-defines-chunk_size-and-fnames", ok)
         if not ok:
             return
         ctx.oblige("post.chunk-size-positive", to_z3(chunk) >= 1, "P")     # range(0, n, chunk_size) needs a non-zero step
